@@ -2,6 +2,7 @@ package main
 
 import (
 	"fmt"
+	"go/constant"
 	"go/token"
 	"go/types"
 	"sort"
@@ -355,13 +356,14 @@ func mapTags(tags []string, m map[string]string) []string {
 // set of constant tags it can return (error returns are reported as "<error>").
 func interpretDiscriminator(fn *ssa.Function, abs map[string]int) map[string]bool {
 	out := map[string]bool{}
-	seen := map[*ssa.BasicBlock]bool{}
-	var walk func(b *ssa.BasicBlock)
-	walk = func(b *ssa.BasicBlock) {
-		if seen[b] {
+	type arrival struct{ b, from *ssa.BasicBlock }
+	seen := map[arrival]bool{}
+	var walk func(b, from *ssa.BasicBlock)
+	walk = func(b, from *ssa.BasicBlock) {
+		if seen[arrival{b, from}] {
 			return
 		}
-		seen[b] = true
+		seen[arrival{b, from}] = true
 		last := b.Instrs[len(b.Instrs)-1]
 		switch x := last.(type) {
 		case *ssa.Return:
@@ -396,20 +398,46 @@ func interpretDiscriminator(fn *ssa.Function, abs map[string]int) map[string]boo
 			case 1: // non-nil
 				takeTrue, takeFalse = c.Op == token.NEQ, c.Op == token.EQL
 			}
+			// a materialised `a && b` / `a || b`: the phi is a constant on the edges where the first operand decided
+			if ph, ok := c.Val.(*ssa.Phi); ok && c.Op == token.ILLEGAL && ph.Block() == b && from != nil {
+				for i, pr := range b.Preds {
+					if pr != from {
+						continue
+					}
+					if k, ok := ph.Edges[i].(*ssa.Const); ok && k.Value != nil && k.Value.Kind() == constant.Bool {
+						val := constant.BoolVal(k.Value) == c.True
+						takeTrue, takeFalse = val, !val
+					} else if ec := normCond(ph.Edges[i], c.True); ec.Op == token.EQL || ec.Op == token.NEQ {
+						// the second operand, itself a nil test of a wire field
+						ev, eo := ec.X, ec.Y
+						if isNilConst(ev) {
+							ev, eo = eo, ev
+						}
+						if ap := pathOf(ev); isNilConst(eo) && len(ap.Fields) == 1 && len(fn.Params) > 0 && ap.Root == fn.Params[0] {
+							switch abs[ap.Fields[0].Name()] {
+							case 0:
+								takeTrue, takeFalse = ec.Op == token.EQL, ec.Op == token.NEQ
+							case 1:
+								takeTrue, takeFalse = ec.Op == token.NEQ, ec.Op == token.EQL
+							}
+						}
+					}
+				}
+			}
 			if takeTrue {
-				walk(b.Succs[0])
+				walk(b.Succs[0], b)
 			}
 			if takeFalse {
-				walk(b.Succs[1])
+				walk(b.Succs[1], b)
 			}
 		default:
 			for _, sx := range b.Succs {
-				walk(sx)
+				walk(sx, b)
 			}
 		}
 	}
 	if len(fn.Blocks) > 0 {
-		walk(fn.Blocks[0])
+		walk(fn.Blocks[0], nil)
 	}
 	return out
 }
